@@ -58,6 +58,16 @@ def gen_cubes(tier, seed):
             if dtype == "int16":
                 pixels = [[float(int(round(x))) for x in px] for px in pixels]
         cubes.append((pixels, nd, st, sp, api, dtype))
+    # boundary of the zero-share guard: exactly 90% zeros is still fitted, one more zero is not
+    for T in (20, 30, 40) if quick else (20, 30, 40, 50, 100):
+        for extra in (-1, 0, 1):
+            nz = (9 * T) // 10 + extra
+            pos = [float(v) for v in rs.randint(5, 400, T - nz)]
+            if len(set(pos)) < 2:
+                pos[0] += 1.0
+            xs = [0.0] * nz + pos
+            rng.shuffle(xs)
+            cubes.append(([xs, [float(v) for v in rs.randint(1, 300, T)]], -9999, 0, T, rng.choice(["yxt", "grp", "accessor"]), "int16"))
     return cubes
 
 
